@@ -284,13 +284,29 @@ def scalar_targets(ctx):
     schema = c.schema
     adapter = BPAdapter(schema)
 
+    maps_mi = schema.msg("ks.Maps")
+    MAP_FIELDS = [f for f in maps_mi.fields if f.card == "map" and f.val.type != "message"]
+
     @st.composite
     def strat(draw):
+        if draw(st.integers(0, 4)) == 0:
+            # one map entry: every key kind, the scalar value kinds the corpus has - encode AND decode (the entry codec
+            # is chosen per field; the Python types of two map fields can be the same while their wire forms differ)
+            f = draw(st.sampled_from(MAP_FIELDS))
+            k = draw(scalar_strategy(schema, f.key.type))
+            v = draw(scalar_strategy(schema, f.val.type, f.val.enum))
+            return {"type": f"{f.key.type}->{f.val.type}", "pos": "map", "field": f.name, "value": [[k, v]]}
         t, fs, fo, fr = draw(st.sampled_from(SCALAR_FIELDS))
-        pos = draw(st.sampled_from(["single", "optional", "repeated"]))
+        pos = draw(st.sampled_from(["single", "optional", "repeated", "repeated"]))
         el = scalar_strategy(schema, t, "ks.Color" if t == "enum" else None)
         if pos == "repeated":
-            v = draw(st.lists(el, min_size=1, max_size=4))
+            # element counts around the thresholds where bulk paths / buffer sizes could switch
+            n = draw(st.sampled_from([1, 2, 3, 4, 4, 4, 15, 16, 17, 63, 64, 65, 127, 128, 129, 200, 255, 256, 600]))
+            if n <= 4:
+                v = draw(st.lists(el, min_size=n, max_size=n))
+            else:
+                few = draw(st.lists(el, min_size=3, max_size=3))
+                v = [few[i % 3] for i in range(n)]
         else:
             v = draw(el)
         return {"type": t, "pos": pos, "value": v}
@@ -299,8 +315,11 @@ def scalar_targets(ctx):
 
     def ev(case):
         t, pos, v = case["type"], case["pos"], case["value"]
-        msg_name, idx = names[pos]
-        fname = next(r for r in SCALAR_FIELDS if r[0] == t)[idx]
+        if pos == "map":
+            msg_name, fname = "Maps", case["field"]
+        else:
+            msg_name, idx = names[pos]
+            fname = next(r for r in SCALAR_FIELDS if r[0] == t)[idx]
         tree = {fname: v}
         mi = schema.msg(f"ks.{msg_name}")
         fails = []
@@ -309,25 +328,46 @@ def scalar_targets(ctx):
         from ..values import value_class
 
         fi = mi.by_name(fname)
-        vc = "+".join(sorted({value_class(fi, x) for x in (v if pos == "repeated" else [v])}))
+        if pos == "map":
+            vc = "+".join(sorted({value_class(fi.key, v[0][0]), value_class(fi.val, v[0][1])}))
+        else:
+            vc = "+".join(sorted({value_class(fi, x) for x in (v if pos == "repeated" else [v])}))
+        if pos == "repeated" and len(v) > 4:
+            vc += f"|n={len(v)}"
         if spec_bytes != ref_bytes:
             # -0.0 in implicit-presence position: reference emits it; the spec encoder above drops it. Not asserted.
             return Eval(discard="oracles_disagree(-0.0)")
         try:
             m = guard("build", adapter.build, c.bp(msg_name), mi, tree)
             got = guard("bytes", bytes, m)
-            if got != ref_bytes:
-                fails.append(Failure("scalar_bytes_vs_reference", f"scalar_bytes|{t}|{pos}|{vc}", f"tree={tree!r} got={got.hex()} want={ref_bytes.hex()}"))
+            if pos == "map":
+                # (the framing of a map entry is not one of the scalar encodings: an entry may omit a default key /
+                # value; what is claimed is that the reference reads betterproto's entry as the same pair)
+                from ..values import norm as _norm, snap_ref
+
+                try:
+                    seen_by_ref = _norm(schema, mi, snap_ref(schema, mi, c.rf(msg_name).FromString(got)))
+                except Exception as e:  # noqa: BLE001
+                    seen_by_ref = f"reference rejects: {e}"
+                if seen_by_ref != _norm(schema, mi, tree):
+                    fails.append(Failure("scalar_bytes_vs_reference", f"scalar_bytes|{t}|{pos}|{vc}", f"tree={tree!r:.300} got={got.hex()[:200]} reference reads {seen_by_ref!r:.200}"))
+            elif got != ref_bytes:
+                fails.append(Failure("scalar_bytes_vs_reference", f"scalar_bytes|{t}|{pos}|{vc}", f"tree={tree!r:.300} got={got.hex()[:200]} want={ref_bytes.hex()[:200]}"))
             back = guard("parse", c.bp(msg_name)().parse, ref_bytes)
             got2 = guard("bytes2", bytes, back)
-            if got2 != ref_bytes:
-                fails.append(Failure("scalar_decode_reencode", f"scalar_reencode|{t}|{pos}|{vc}", f"tree={tree!r} got={got2.hex()} want={ref_bytes.hex()}"))
+            if got2 != (got if pos == "map" else ref_bytes):
+                fails.append(Failure("scalar_decode_reencode", f"scalar_reencode|{t}|{pos}|{vc}", f"tree={tree!r:.300} got={got2.hex()[:200]} want={ref_bytes.hex()[:200]}"))
+            from ..values import norm, snap_bp
+
+            val = norm(schema, mi, guard("snapshot", snap_bp, schema, mi, back))
+            if val != norm(schema, mi, tree):
+                fails.append(Failure("scalar_decoded_value", f"scalar_decoded_value|{t}|{pos}|{vc}", f"tree={tree!r:.300} decoded={val!r:.300}"))
         except Guarded as g:
             fails.append(Failure(f"raises_{g.where}", f"scalar_raises|{g.where}|{type(g.exc).__name__}|{t}|{pos}|{vc}", str(g)))
         return Eval(fails, nontrivial=len(ref_bytes) > 0, labels=[f"scalar:{t}:{pos}", f"vc:{vc}"])
 
     return Target("scalar_kinds_vs_reference", ev, strategy=strat(), quick=3000, thorough=30000,
-                  rule="single-field message per scalar kind, byte-for-byte vs reference and spec")
+                  rule="single-field message per scalar kind (singular, optional, repeated with 1..1000 elements, one map entry per key / value kind), byte-for-byte vs reference and spec, and decoded back to the value")
 
 
 def _boundary_windows():
